@@ -224,7 +224,13 @@ func (vm *VirtualMachine) runCodeInternal(ctx context.Context, codeToRun *compil
 	vm.activateCode(0, startIP, codeObj)
 
 	// Run the entrypoint until completion
-	return vm.eval(vm.initContext(ctx))
+	if err := vm.eval(vm.initContext(ctx)); err != nil {
+		return err
+	}
+	// Blocking operations (sleep, channel iteration) end quietly when the
+	// context is done, and try() can swallow the error of a cancelled callback,
+	// so the code may run to its end although the context was cancelled
+	return ctx.Err()
 }
 
 // resetForNewCode resets the VM state for running a new code object
@@ -820,7 +826,13 @@ func (vm *VirtualMachine) Call(
 		}
 		vm.stop()
 	}()
-	return vm.callFunction(vm.initContext(ctx), fn, args)
+	result, err = vm.callFunction(vm.initContext(ctx), fn, args)
+	if err == nil {
+		if err = ctx.Err(); err != nil {
+			result = nil
+		}
+	}
+	return result, err
 }
 
 // Calls a compiled function with the given arguments. This is used internally
